@@ -26,7 +26,7 @@ def corpus():
 
 
 def generate(rng, tier):
-    n = 300 if tier == "quick" else 5000
+    n = 600 if tier == "quick" else 5000
     cases = []
     for i in range(n):
         c = updfam.gen_case(rng, with_includes=(rng.random() < 0.6), tiny=(rng.random() < 0.3))
@@ -202,7 +202,7 @@ def execute(cases, tier):
             disagreements.append({"case": c, "impl": {k2: o.get(k2) for k2 in ("update1", "listing1", "snapshots")},
                                   "model": m[1] if isinstance(m, list) and len(m) > 1 else m, "spec": spec, "note": note, "broken": "corr_C08_final"})
     # crash injection at every request
-    maxcrash = 1500 if tier == "quick" else 40000
+    maxcrash = 3000 if tier == "quick" else 40000
     crash_cases = crash_cases[:maxcrash]
     if crash_cases:
         outs = vlib.run_impl("update", [updfam.corr.strip(c) for c in crash_cases], shards=8)
